@@ -330,13 +330,39 @@ theorem spm_mat_roundtrip {α : Type} [CommRing α] (a hdrAff : Aff α) (xFlip :
         Aff.mk.injEq, M33.mk.injEq, V3.mk.injEq, Bool.false_eq_true, if_false, if_true]
       refine ⟨⟨?_, ?_, ?_, ?_⟩, ?_⟩ <;> grind
 
-theorem spm_image_roundtrip (E : Ext) (shape : List Nat) (a : Aff Rat) (hdr : Option AHdr) (mode : MatMode)
-    (hm : mode ≠ .none) : (analyzeRoundtrip E .spm shape a hdr mode).affine = a := by
-  have h := spm_mat_roundtrip a
+/-- writer with `default_x_flip = fw`, reader with `fr`: the 'mat' variable never sees either flag; the 'M'
+    variable comes back unchanged when the two agree and with its first row negated when they differ -/
+theorem spm_mat_roundtrip_flips {α : Type} [CommRing α] (a hdrAff : Aff α) (fw fr : Bool) :
+    spmReadMat fr .both (spmWriteMat fw a) hdrAff = a ∧
+    spmReadMat fr .matOnly (spmWriteMat fw a) hdrAff = a ∧
+    spmReadMat fr .mat3d (spmWriteMat fw a) hdrAff = a ∧
+    spmReadMat fr .mOnly (spmWriteMat fw a) hdrAff = (if fw = fr then a else a.flipX) ∧
+    spmReadMat fr .none (spmWriteMat fw a) hdrAff = hdrAff := by
+  cases a with
+  | mk m t =>
+    cases m; cases t
+    cases fw <;> cases fr <;>
+    · simp only [spmReadMat, spmWriteMat, Aff.mulShift, from111, to111, M33.mulVec, V3.add, Aff.flipX,
+        Aff.mk.injEq, M33.mk.injEq, V3.mk.injEq, Bool.false_eq_true, if_false, if_true, Bool.true_eq_false,
+        and_true, true_and]
+      refine ⟨?_, ?_, ?_, ?_⟩ <;> (try refine ⟨?_, ?_, ?_⟩) <;> (try refine ⟨⟨?_, ?_, ?_⟩, ?_, ?_, ?_⟩) <;> grind
+
+theorem spm_image_roundtrip (E : Ext) (fl : Flips) (shape : List Nat) (a : Aff Rat) (hdr : Option AHdr)
+    (mode : MatMode) (hm : mode ≠ .none) (hf : mode = .mOnly → fl.save = fl.load) :
+    (analyzeRoundtrip E .spm fl shape a hdr mode).affine = a := by
+  have h := fun x => spm_mat_roundtrip_flips a x fl.save fl.load
   cases mode with
   | none => exact absurd rfl hm
-  | both => simp only [analyzeRoundtrip]; exact (h _ true).1
-  | mOnly => simp only [analyzeRoundtrip]; exact (h _ true).2
+  | both => simp only [analyzeRoundtrip, analyzeRoundtripFrom]; exact (h _).1
+  | matOnly => simp only [analyzeRoundtrip, analyzeRoundtripFrom]; exact (h _).2.1
+  | mat3d => simp only [analyzeRoundtrip, analyzeRoundtripFrom]; exact (h _).2.2.1
+  | mOnly => simp only [analyzeRoundtrip, analyzeRoundtripFrom]; rw [(h _).2.2.2.1, if_pos (hf rfl)]
+
+theorem spm_image_roundtrip_M_mismatch (E : Ext) (fl : Flips) (shape : List Nat) (a : Aff Rat) (hdr : Option AHdr)
+    (hne : fl.save ≠ fl.load) :
+    (analyzeRoundtrip E .spm fl shape a hdr .mOnly).affine = a.flipX := by
+  simp only [analyzeRoundtrip, analyzeRoundtripFrom]
+  rw [(spm_mat_roundtrip_flips a _ fl.save fl.load).2.2.2.1, if_neg hne]
 
 theorem fallback_affine_centre {α : Type} [Field α] (shape zooms : V3 α) (flip : Bool) :
     (shapeZoomAffine3 shape zooms flip).apply ⟨(shape.x - 1) / 2, (shape.y - 1) / 2, (shape.z - 1) / 2⟩
@@ -460,45 +486,50 @@ theorem nifti_roundtrip_header_close (E : Ext) (f : NFmt) (shape : List Nat) (a 
 
 /-! ### Analyze -/
 
-theorem analyze_roundtrip_zooms (E : Ext) (n1 n2 n3 : Nat) (rest : List Nat) (a : Aff Rat) (hdr : Option AHdr)
-    (mode : MatMode)
+/-- Analyze and SPM-without-`.mat`: when the constructor rewrites the header (affine not `allclose` to the header's
+    own affine under the flag in force at construction) the saved zooms are the rounded column norms — whatever
+    the flag is at save time — and the loaded affine is the loading header's fallback of those zooms. -/
+theorem analyze_roundtrip_zooms (E : Ext) (k : AKind) (fl : Flips) (n1 n2 n3 : Nat) (rest : List Nat) (a : Aff Rat)
+    (hdr : Option AHdr) (mode : MatMode) (hk : k = .analyze ∨ mode = .none)
     (hfar : ¬ E.allclose a ((match hdr with
         | none => defaultAHdr (n1 :: n2 :: n3 :: rest)
-        | some h => { h with shape := n1 :: n2 :: n3 :: rest }).bestAffine .analyze)) :
-    analyzeRoundtrip E .analyze (n1 :: n2 :: n3 :: rest) a hdr mode
-      = ⟨shapeZoomAffine (n1 :: n2 :: n3 :: rest) ((a.m.colNorm2.map E.sqrt).map E.rnd) true,
+        | some h => { h with shape := n1 :: n2 :: n3 :: rest }).bestAffine k fl.init)) :
+    analyzeRoundtrip E k fl (n1 :: n2 :: n3 :: rest) a hdr mode
+      = ⟨(⟨n1 :: n2 :: n3 :: rest, (a.m.colNorm2.map E.sqrt).map E.rnd,
+            (match hdr with | none => ⟨0, 0, 0⟩ | some h => h.origin)⟩ : AHdr).bestAffine k fl.load,
          (a.m.colNorm2.map E.sqrt).map E.rnd⟩ := by
-  have key : ∀ h0 : AHdr, h0.shape = n1 :: n2 :: n3 :: rest → ¬ E.allclose a (h0.bestAffine .analyze) →
-      let h2 := (h0.updateHeader E .analyze a).updateHeader E .analyze a
-      h2.pixdim = (a.m.colNorm2.map E.sqrt).map E.rnd ∧ h2.shape = n1 :: n2 :: n3 :: rest := by
+  have key : ∀ h0 : AHdr, h0.shape = n1 :: n2 :: n3 :: rest → ¬ E.allclose a (h0.bestAffine k fl.init) →
+      (h0.updateHeader E k fl.init a).updateHeader E k fl.save a
+        = ⟨n1 :: n2 :: n3 :: rest, (a.m.colNorm2.map E.sqrt).map E.rnd, h0.origin⟩ := by
     intro h0 hsh hf
     have p1 : ∀ g : AHdr, g.shape = n1 :: n2 :: n3 :: rest →
-        (g.affine2header E a).pixdim = (a.m.colNorm2.map E.sqrt).map E.rnd ∧
-        (g.affine2header E a).shape = n1 :: n2 :: n3 :: rest := by
+        g.affine2header E a = ⟨n1 :: n2 :: n3 :: rest, (a.m.colNorm2.map E.sqrt).map E.rnd, g.origin⟩ := by
       intro g hg
-      simp only [AHdr.affine2header, hg, List.length_cons]
-      refine ⟨?_, trivial⟩
-      have c0 : 0 < rest.length + 1 + 1 + 1 := by omega
-      have c1 : 1 < rest.length + 1 + 1 + 1 := by omega
-      have c2 : 2 < rest.length + 1 + 1 + 1 := by omega
-      simp only [c0, c1, c2, if_true]
-    have e1 : h0.updateHeader E .analyze a = h0.affine2header E a := by
+      cases g with
+      | mk gs gp go =>
+        simp only at hg
+        simp only [AHdr.affine2header, hg, List.length_cons]
+        have c0 : 0 < rest.length + 1 + 1 + 1 := by omega
+        have c1 : 1 < rest.length + 1 + 1 + 1 := by omega
+        have c2 : 2 < rest.length + 1 + 1 + 1 := by omega
+        simp only [c0, c1, c2, if_true]
+    have e1 : h0.updateHeader E k fl.init a = h0.affine2header E a := by
       unfold AHdr.updateHeader; rw [if_neg hf]
-    obtain ⟨q1, q2⟩ := p1 h0 hsh
-    rw [e1]
-    generalize h0.affine2header E a = g at q1 q2
+    rw [e1, p1 h0 hsh]
     simp only [AHdr.updateHeader]
     split
-    · exact ⟨q1, q2⟩
-    · exact p1 g q2
-  have fin : ∀ h0 : AHdr, h0.shape = n1 :: n2 :: n3 :: rest → ¬ E.allclose a (h0.bestAffine .analyze) →
-      (let h2 := (h0.updateHeader E .analyze a).updateHeader E .analyze a
-       (⟨h2.bestAffine .analyze, h2.pixdim⟩ : AOut))
-      = ⟨shapeZoomAffine (n1 :: n2 :: n3 :: rest) ((a.m.colNorm2.map E.sqrt).map E.rnd) true,
+    · rfl
+    · exact p1 _ rfl
+  have fin : ∀ h0 : AHdr, h0.shape = n1 :: n2 :: n3 :: rest → ¬ E.allclose a (h0.bestAffine k fl.init) →
+      analyzeRoundtripFrom E k fl a h0 mode
+      = ⟨(⟨n1 :: n2 :: n3 :: rest, (a.m.colNorm2.map E.sqrt).map E.rnd, h0.origin⟩ : AHdr).bestAffine k fl.load,
          (a.m.colNorm2.map E.sqrt).map E.rnd⟩ := by
     intro h0 hsh hf
-    obtain ⟨k1, k2⟩ := key h0 hsh hf
-    simp only [AHdr.bestAffine, k1, k2]
+    have k1 := key h0 hsh hf
+    simp only [analyzeRoundtripFrom, k1]
+    rcases hk with hk | hk
+    · subst hk; rfl
+    · subst hk; cases k <;> rfl
   cases hdr with
   | none => exact fin (defaultAHdr (n1 :: n2 :: n3 :: rest)) rfl hfar
   | some h => exact fin { h with shape := n1 :: n2 :: n3 :: rest } rfl hfar
